@@ -2,6 +2,7 @@
 validate_block_in_coinstate and the model's; conformance of genesis and the recorded blocks of
 the real network (ids, byte-identical re-encoding, full validation with the REAL scrypt)."""
 import os
+import struct
 
 from . import kit, chain
 from .kit import hx, sha256d
@@ -196,6 +197,28 @@ def run(ctx):
             if r != "rej":
                 res.violations.append({"kind": "block with a wrong id accepted at a checkpointed height", "height": h,
                                        "id": w.hex(), "checkpoint": v})
+    # the wire format of the height field at every checkpointed height is the real network's (its variable-length integers
+    # carry one more leading octet than the textbook encoding when the bit length is a multiple of 7; a node that writes or
+    # expects anything else computes other ids than the network at those heights). Reference encoder: the harness's own.
+    def network_vlq(n):
+        k = n.bit_length() // 7 + 1
+        return bytes(((n >> (7 * j)) & 0x7f) | (0x80 if j > 0 else 0) for j in reversed(range(k)))
+    fmt_reported = 0
+    for h in list(table) + [63, 64, 127, 128, 8191, 8192, 16383, 16384]:
+        s_ = BlockSummary(h, b"\x11" * 32, b"\x22" * 32, 1_600_000_000, b"\x00" * 32, 7)
+        tail = b"\x22" * 32 + struct.pack(b">I", 1_600_000_000) + b"\x00" * 32 + struct.pack(b">I", 7)
+        want = network_vlq(h) + b"\x11" * 32
+        got = s_.serialize()[:len(want)]
+        res.case(("format", h))
+        try:
+            back = BlockSummary.deserialize(want + tail).height
+        except Exception as e:
+            back = repr(e)
+        if (got != want or back != h) and fmt_reported < 4:
+            fmt_reported += 1
+            res.violations.append({"kind": "a block summary at height %d is not written / read in the real network's wire format: "
+                                           "written %s, the network writes %s; reading the network's bytes gives %s"
+                                           % (h, got[:6].hex(), want[:6].hex(), back), "height": h})
     res.count("checkpointed_heights", len(table))
     # heights below the horizon that are not checkpointed are skipped; above it full validation applies
     for h in [1, 499, 501, horizon - 1, horizon + 1, horizon + 500]:
